@@ -287,6 +287,38 @@ pub fn c04_scenarios(tier: Tier, base: &[&'static str]) -> Vec<Scenario> {
             v.push(seq(&format!("outcomes/hooks{}/{}", layout, if lifo { "lifo" } else { "fifo" }), "one get at a time over a pool of idle objects: every assignment of ok / error / delayed outcomes to create, recycle and each hook, plus abandonment", f, sc));
         }
     }
+    // the same with wait / create / recycle timeouts configured (they never
+    // fire): every step goes through the timeout wrappers
+    for layout in [0u8, 3] {
+        let mut c = PoolCfg::simple(2);
+        c.create_menu = ERRS.to_vec();
+        c.recycle_menu = ERRS.to_vec();
+        c = with_hooks(c, layout, ERRS);
+        let mut sc = SeqScenario::new(c, if b.thorough { 8 } else { 6 }, base);
+        sc.max_tasks = 1;
+        sc.prefill = 2;
+        sc.take = false;
+        sc.stop_anywhere = false;
+        sc.timeouts = true;
+        v.push(seq(&format!("outcomes/with-timeouts/hooks{}", layout), "pool built with one-hour wait/create/recycle timeouts and the tokio runtime (paused clock, never advanced): every outcome assignment again", if b.thorough { 3 } else { 2 }, sc));
+    }
+    // two gets in flight: a slow, finally rejected recycle in one of them while
+    // the other hands out / returns / creates objects (metrics of objects that
+    // change hands between concurrent gets)
+    for lifo in [false, true] {
+        let mut c = PoolCfg::simple(2);
+        c.lifo = lifo;
+        c.create_menu = vec![Out::Ok, Out::PendOk];
+        c.recycle_menu = vec![Out::Ok, Out::PendOk, Out::PendErr, Out::Err];
+        let mut sc = SeqScenario::new(c, if b.thorough { 9 } else { 7 }, base);
+        sc.max_tasks = 2;
+        sc.prefill = 2;
+        sc.take = false;
+        sc.cancel = false;
+        sc.gets_nonblocking = false;
+        sc.stop_anywhere = false;
+        v.push(seq(&format!("two-gets-in-flight/{}", if lifo { "lifo" } else { "fifo" }), "two concurrent gets over two idle objects with delayed / failing recycles: objects change hands between the calls", if b.thorough { 3 } else { 2 }, sc));
+    }
     // sync hooks may also panic
     let mut c = PoolCfg::simple(2);
     c.create_menu = vec![Out::Ok, Out::Err];
